@@ -16,6 +16,8 @@ import ArvVerif.Proofs.C04_Trash
 import ArvVerif.Proofs.C04_HistGood
 import ArvVerif.Proofs.C04_Race
 import ArvVerif.Proofs.C04_Compose
+import ArvVerif.Proofs.C04_Race3
+import ArvVerif.Proofs.C04_Queue
 namespace ArvVerif.C04
 
 /-! ## (a) histories -/
@@ -349,5 +351,93 @@ example : Compose.obsR (Race.run (f4Sched ++ Race.drain) (Race.init f4Cfg)) = Co
   decide +kernel
 example : Compose.seqTP f4Cfg (Compose.drvTimes f4Cfg) =
     { p := .code 200, t := .deleted 1 0, blk := some (true, true), trash := [false] } := by decide
+
+/-! ## (f) a trash-emptying sweep running during the race
+
+`Model/C04_Race3.lean`: one filesystem step of `EmptyTrash`, as far as the files of one block are concerned,
+is the `Remove` of an inode currently linked at a name `<hash>.trash.<deadline>` (`sweep i`; OVER-approximated:
+any trashed copy, at any moment, whether or not its deadline has passed). -/
+
+/-- In EVERY state of the interleaving model (reachable or not), a sweep step on any inode leaves the file at
+the block path, its timestamp class and content, the temp file and both requests' results untouched — the
+only possible change is trashed copy → gone. Hence it preserves `Acked` and `Protected`: a sweep step at
+any point of a PUT/TOUCH-vs-Trash race cannot remove the acknowledged block. (The full three-party
+statement — arbitrary schedules over P steps, T steps and sweeps — additionally needs that P's and T's
+later steps do not depend on whether a trashed copy still exists; see notes, open gaps.) -/
+theorem C04_sweep_step_keeps_block (i : Race.Ino) (s : Race.St) :
+    (Race.sweep i s).blk = s.blk ∧ (Race.sweep i s).resP = s.resP ∧
+    (∀ j, (Race.sweep i s).loc j = s.loc j ∨ (s.loc j = .trash ∧ (Race.sweep i s).loc j = .gone)) ∧
+    (Acked (Race.sweep i s) ↔ Acked s) ∧ (Protected (Race.sweep i s) ↔ Protected s) := by
+  refine ⟨Race.sweep_blk i s, Race.sweep_resP i s, fun j => Race.sweep_loc i j s, ?_, ?_⟩
+  · simp only [Acked, Race.sweep_resP]
+  · simp only [Protected, Race.sweep_blk, Race.sweep_fresh, Race.sweep_good, Race.sweep_cfg]
+
+/-- after any two-party schedule, any number of sweep steps: still protected -/
+theorem C04_race_then_sweeps (c : Race.Cfg) (sched : List Bool) (htop : c.top ≠ .untrash) (is : List Race.Ino) :
+    Acked (Race.run3 (is.map .sweep) (Race.run sched (Race.init c))) →
+    Protected (Race.run3 (is.map .sweep) (Race.run sched (Race.init c))) := by
+  induction is generalizing sched with
+  | nil => exact C04_race_protects c sched htop
+  | cons i is ih =>
+    intro h
+    have key : ∀ (l : List Race.Ino) (s : Race.St),
+        (Acked (Race.run3 (l.map .sweep) s) ↔ Acked s) ∧ (Protected (Race.run3 (l.map .sweep) s) ↔ Protected s) := by
+      intro l
+      induction l with
+      | nil => intro s; exact ⟨Iff.rfl, Iff.rfl⟩
+      | cons j l ihl =>
+        intro s
+        have h1 := ihl (Race.sweep j s)
+        have h2 := C04_sweep_step_keeps_block j s
+        exact ⟨h1.1.trans h2.2.2.2.1, h1.2.trans h2.2.2.2.2⟩
+    have k := key (i :: is) (Race.run sched (Race.init c))
+    exact k.2.mpr (C04_race_protects c sched htop (k.1.mp h))
+
+example : (Race.sweep .x (Race.init3 f4Cfg true)).locX = .gone := by decide
+example : (Race.sweep .a (Race.run (f4Sched ++ Race.drain) (Race.init f4Cfg))).locA = .gone := by decide +kernel
+
+/-! ## (g) the trash list on its way to TrashItem: work queue and trash workers
+
+`Model/C04_Queue.lean` models work_queue.go's manager (ReplaceQueue abandons the unprocessed rest of the old
+list, items already handed to a worker are finished), RunTrashWorker (any number of workers) and the moment
+at which `TrashItem` runs: LATER than the submission, at a time of the scheduler's choosing. -/
+
+/-- Every execution of the server — requests, trash-list submissions, hand-overs to workers, workers running
+their item, in ANY order and with ANY delay — is a request history of the history layer (the executed items
+appear as `.trashItem` ops at the time they actually run). Hence `C04_history_protects` covers it: whatever the
+queue does, an item that runs after the block was written or touched meets the TTL test and the mtime
+comparison of that moment. -/
+theorem C04_queue_protects (c : Cfg) (s : St) (q : Queue.QSt) (evs : List Queue.Ev) :
+    (Queue.srun c s q evs).1 = (runG c s emptyGhost (Queue.opsOf q evs)).1 ∧
+    Prot c (runG c s emptyGhost (Queue.opsOf q evs)).1 (runG c s emptyGhost (Queue.opsOf q evs)).2 :=
+  ⟨(Queue.srun_is_run c evs s q).trans (Queue.run_fst_eq_runG c _ s emptyGhost), C04_history_protects c s _⟩
+
+/-- Replacement semantics: after `PUT /trash` with list `l`, and until the next submission, the workers execute
+only items of `l` or items that were already in a worker's hands at that moment — the unprocessed rest of the
+abandoned list never runs (and nothing is invented). -/
+theorem C04_queue_replace (q : Queue.QSt) (l : List Queue.Item) (evs : List Queue.Ev) (hno : Queue.noReplace evs) :
+    ∀ x ∈ Queue.executed q (.putTrash l :: evs), x ∈ l ++ q.busy := by
+  intro x hx
+  have hx' : x ∈ Queue.executed (Queue.qstep q (.putTrash l)) evs := by simpa [Queue.executed] using hx
+  simpa [Queue.qstep] using Queue.executed_sub evs _ hno x hx'
+
+/-- ... and each executed item is a `.trashItem` op of the history of `C04_queue_protects` -/
+theorem C04_queue_executed_in_history (q : Queue.QSt) (evs : List Queue.Ev) (x : Queue.Item)
+    (hx : x ∈ Queue.executed q evs) : x.op ∈ Queue.opsOf q evs :=
+  Queue.executed_ops evs q x hx
+
+/-! non-vacuity: list [i0, i1] submitted; a worker takes i0; the list is replaced by [i2]; the worker runs i0,
+then takes and runs i2; i1 never runs. With the block touched in between, i0 (naming the old timestamp) no
+longer matches and the block stays. -/
+def qi0 : Queue.Item := { hash := 0, mtime := 0, mount := none }
+def qi1 : Queue.Item := { hash := 1, mtime := 0, mount := none }
+def qi2 : Queue.Item := { hash := 2, mtime := 0, mount := none }
+def qEvs : List Queue.Ev := [.putTrash [qi0, qi1], .take, .req (.touch 0), .putTrash [qi2], .exec 0, .take, .exec 0]
+example : Queue.executed { todo := [], busy := [] } qEvs = [qi0, qi2] := by decide
+example : Queue.opsOf { todo := [], busy := [] } qEvs = [.touch 0, .trashItem 0 0 none, .trashItem 2 0 none] := by decide
+example : (Queue.srun wCfg wSt { todo := [], busy := [] } qEvs).1.vols.map (fun v => v.blocks 0) =
+    [some { good := true, mtime := 100 }] := by decide
+example : (Queue.srun wCfg wSt { todo := [], busy := [] } [.putTrash [qi0], .take, .exec 0]).1.vols.map (fun v => v.blocks 0) =
+    [none] := by decide
 
 end ArvVerif.C04
